@@ -272,6 +272,24 @@ func (r *recLogDB) RemoveEntriesTo(shardID uint64, replicaID uint64, index uint6
 				}()
 				return ss.Validate(r.h.FS)
 			}()
+			for try := 0; !ok && try < 5; try++ {
+				// the snapshot worker may have recorded a newer snapshot and removed the directory of
+				// this one between the two reads above: judge the record that is current now
+				ss2, err2 := r.ILogDB.GetSnapshot(shardID, replicaID)
+				if err2 != nil || ss2.Index == ss.Index {
+					break
+				}
+				ss = ss2
+				r.h.c.Sink.Count("compaction_checks_repeated_with_a_newer_snapshot_record", 1)
+				ok = func() (ok bool) {
+					defer func() {
+						if x := recover(); x != nil {
+							ok = false
+						}
+					}()
+					return ss.Validate(r.h.FS)
+				}()
+			}
 			if !ok && r.loads(ss.Filepath) {
 				// the size recorded with the snapshot differs from the file, but the file is a complete
 				// valid snapshot image (header, every block checksum, tail): the replica can recover
